@@ -95,6 +95,11 @@ func (config Config) New(session *packet.Session) (h *Handler, err error) {
 	if !session.NICInfo.HomeLAN4.Contains(config.NetfilterIP.Addr()) {
 		return nil, fmt.Errorf("netfilter ip=%s does not exist in home net=%s: %w", config.NetfilterIP, session.NICInfo.HomeLAN4, packet.ErrInvalidIP)
 	}
+	// the netfilter LAN is a subnet of the home LAN: with a shorter prefix it would hand out
+	// addresses outside the home LAN, which are also dropped when the lease file is reloaded
+	if config.NetfilterIP.Bits() < session.NICInfo.HomeLAN4.Bits() {
+		return nil, fmt.Errorf("netfilter prefix=%s is not inside home net=%s: %w", config.NetfilterIP, session.NICInfo.HomeLAN4, packet.ErrInvalidIP)
+	}
 
 	// validate mode - default to SecondaryServerNice
 	if config.Mode != ModePrimaryServer && config.Mode != ModeSecondaryServer && config.Mode != ModeSecondaryServerNice {
